@@ -1,0 +1,70 @@
+//! C22: entry points of the text / archive parsers, so that the harness can feed them arbitrary bytes
+//! in-process (under `catch_unwind`). Adds no behaviour.
+
+use crate::archive::ArchiveEntry;
+use crate::archive::ArchiveIterator;
+use crate::input_data::ScriptData;
+
+/// One archive member as seen by `ArchiveIterator`.
+pub struct Member {
+    pub thin: bool,
+    pub name: Vec<u8>,
+    /// Offset of the member's data in the archive (regular archives only).
+    pub data_offset: usize,
+    pub data_len: usize,
+}
+
+/// Walks an archive with the real `ArchiveIterator`. `Err` carries the members seen before the error.
+pub fn archive_members(data: &[u8]) -> Result<Vec<Member>, (Vec<Member>, String)> {
+    let mut out = Vec::new();
+    let iter = match ArchiveIterator::from_archive_bytes(data) {
+        Ok(i) => i,
+        Err(e) => return Err((out, e.to_string())),
+    };
+    for entry in iter {
+        match entry {
+            Ok(ArchiveEntry::Regular(c)) => out.push(Member {
+                thin: false,
+                name: c.ident.as_slice().to_vec(),
+                data_offset: c.data_offset,
+                data_len: c.entry_data.len(),
+            }),
+            Ok(ArchiveEntry::Thin(t)) => out.push(Member {
+                thin: true,
+                name: t.ident.as_slice().to_vec(),
+                data_offset: 0,
+                data_len: 0,
+            }),
+            Err(e) => return Err((out, e.to_string())),
+        }
+    }
+    Ok(out)
+}
+
+/// `read_args_from_file` (response file `@file`): read + `arguments_from_string`.
+pub fn args_from_file(path: &std::path::Path) -> Result<Vec<String>, String> {
+    crate::args::read_args_from_file(path).map_err(|e| e.to_string())
+}
+
+pub fn parse_linker_script(bytes: &[u8]) -> Result<(), String> {
+    crate::linker_script::LinkerScript::parse(bytes, std::path::Path::new("script.ld"))
+        .map(|_| ())
+        .map_err(|e| e.to_string())
+}
+
+pub fn parse_version_script(bytes: &[u8]) -> Result<(), String> {
+    crate::version_script::VersionScript::parse(ScriptData { raw: bytes })
+        .map(|_| ())
+        .map_err(|e| e.to_string())
+}
+
+pub fn parse_export_list(bytes: &[u8]) -> Result<(), String> {
+    crate::export_list::ExportList::parse(ScriptData { raw: bytes })
+        .map(|_| ())
+        .map_err(|e| e.to_string())
+}
+
+/// Whether `ArchiveIterator::from_archive_bytes` itself fails (as opposed to a later `next`).
+pub fn archive_open_fails(data: &[u8]) -> bool {
+    ArchiveIterator::from_archive_bytes(data).is_err()
+}
